@@ -2531,8 +2531,8 @@ STRIDES = {
     "quick": dict(c01=18, c02=6, c03=9, c03x=3, c03bf=8, c04=48, c04in=56,
                   c04h=60, c06=4, c07=24, c07g=4, c08k2=4, c08k3=40,
                   c08m=16, c08x=2),
-    "thorough": dict(c01=12, c02=6, c03=4, c03bf=6, c04=30, c04in=60,
-                     c04h=80, c06=2, c07=8, c07g=6, c08k3=4, c08m=8),
+    "thorough": dict(c01=10, c02=6, c03=3, c03bf=6, c04=30, c04in=40,
+                     c04h=50, c06=2, c07=8, c07g=4, c08k3=4, c08m=5),
 }
 
 
